@@ -134,9 +134,10 @@ Proof.
   - intros H. inversion H. auto.
 Qed.
 
-(* what CloneRequest reads, in order: struct, URL, headers, params, and the body if any *)
+(* what CloneRequest reads, in order: struct, URL, header map, header value slices, params,
+   and the body if any *)
 Definition clone_reads (r : request) : list val :=
-  [VStruct (q_method r) (q_path r); VUrl; VMap (q_hdr r); VPar (q_par r)] ++
+  [VStruct (q_method r) (q_path r); VUrl; VMap (q_hdr r); VMap (q_hdr r); VPar (q_par r)] ++
   match q_body r with None => [] | Some b => [VBody (Some b)] end.
 
 (* goroutines spawned by the caller after the shadow goroutine (fork number >= 1 at the
@@ -261,6 +262,27 @@ Lemma unrepaired_refuted : exists r rp,
   regular_disciplined rp = true /\
   shadow_disciplined (map Acc (unrepaired_gql_get_accs (root_view OClone (cl FQry)))) = false /\
   race_free hobj_eqb (shadowed_prog r (map Acc (unrepaired_gql_get_accs (root_view OClone (cl FQry)))) rp) = false.
+Proof.
+  exists refute_req, (regular_stack {| k_qs := false; k_hs := false; k_gql := GNone |}).
+  vm_compute. repeat split.
+Qed.
+
+(* ---- header value slices ---- *)
+(* on the real clone a shadow stage that rewrites header values in place writes the clone's own
+   backing arrays: within the discipline, for every regular pipeline no conflict *)
+Lemma inplace_writer_disciplined :
+  shadow_disciplined (map Acc (inplace_header_writer (sh FHdr) (sh FHdrVals))) = true /\
+  race_free hobj_eqb (map Acc (inplace_header_writer (sh FHdr) (sh FHdrVals))) = true.
+Proof. vm_compute. split; reflexivity. Qed.
+
+(* with a clone whose value slices alias the client's, the same stage writes the client's
+   backing arrays: outside the discipline, and the call has a conflicting unordered pair with
+   the regular backend's read of its header values *)
+Lemma aliasing_clone_refuted : exists r rp,
+  regular_disciplined rp = true /\
+  shadow_disciplined (map Acc (inplace_header_writer (sh FHdr) (cl FHdrVals))) = false /\
+  race_free hobj_eqb
+    (map Acc (aliasing_clone_accs r) ++ Fork (map Acc (inplace_header_writer (sh FHdr) (cl FHdrVals))) :: rp)%list = false.
 Proof.
   exists refute_req, (regular_stack {| k_qs := false; k_hs := false; k_gql := GNone |}).
   vm_compute. repeat split.
